@@ -399,6 +399,8 @@ static int run_batch(Property *p, bool thorough, uint64_t seed, int jobs, double
       snprintf(errpath, sizeof errpath, "%s/build/logs/%s.w%d.stderr", VERIF_DIR, p->id.c_str(), w);
       int efd = open(errpath, O_WRONLY | O_CREAT | O_TRUNC, 0644);
       if (efd >= 0) { dup2(efd, 2); close(efd); }
+      // libcoap's coap_show_pdu() writes to stdout when a plan raises the log level (C02 does): a worker's stdout is nobody's business
+      { int nfd = open("/dev/null", O_WRONLY); if (nfd >= 0) { dup2(nfd, 1); close(nfd); } }
       WorkerCfg c = base;
       c.w = w;
       worker_main(p, c, pfd[1], ws[w].next);
